@@ -126,13 +126,18 @@ def stepSer (st : St) (cmd : List String) (got : String) : Option (St × Verdict
           | some p => p == -1 || p == (len : Int)
           | none => false
         let _ := opts
-        some ({ st with bm := st.bm.insert y s }, firstFail [
+        let v := firstFail [
           failIf (dg != digest s) ("digest " ++ digest s),
           failIf (!nOk) "returned n == stream length",
           failIf (!pulledOk) "reader consumed exactly the stream",
           failIf (valid != "ok") "round trip validates",
-          failIf (eqS != "true") "Equals(original)"])
-      | _ => some (st, some ("<digest> n pulled len ok true, digest=" ++ digest s))
+          failIf (eqS != "true") "Equals(original)"]
+        -- a failed round trip leaves no object behind on either side (the executor drops it under the same conditions),
+        -- so the two states stay in step and the script can go on
+        some ((match v with
+               | none => { st with bm := st.bm.insert y s }
+               | some _ => { st with bm := st.bm.erase y }), v)
+      | _ => some ({ st with bm := st.bm.erase y }, some ("<digest> n pulled len ok true, digest=" ++ digest s))
   | ["wrfail", x, off] =>
     match st.bm[x]?, off.toNat? with
     | some _, some o =>
@@ -154,7 +159,7 @@ def stepSer (st : St) (cmd : List String) (got : String) : Option (St × Verdict
     match st.bm[x]? with
     | none => some (skipV st got)
     | some _ => some (st, expect "allok" got)
-  | ["spec", y, entry, hexS, claimed] =>
+  | "spec" :: y :: entry :: hexS :: claimed :: _ =>
     match bytesOfHex hexS with
     | none => some (skipV st got)
     | some bytes =>
